@@ -528,7 +528,14 @@ func c14Elements(c *Ctx) {
 				p1, _ := guard(func() { err = xml.Unmarshal([]byte(doc), &ed) })
 				var ed2 *saml.EntityDescriptor
 				var err2 error
-				p2, _ := guard(func() { ed2, err2 = samlsp.ParseMetadata([]byte(doc)) })
+				doc2 := doc
+				if slot.role == "IDPSSODescriptor" && (si+bi+li)%2 == 0 {
+					// the same entity inside an EntitiesDescriptor (nested one level on every fourth case)
+					doc2 = `<EntitiesDescriptor xmlns="urn:oasis:names:tc:SAML:2.0:metadata" Name="fed"><EntityDescriptor entityID="https://other.example.com/md"><SPSSODescriptor protocolSupportEnumeration="urn:oasis:names:tc:SAML:2.0:protocol"></SPSSODescriptor></EntityDescriptor>` +
+						doc + `</EntitiesDescriptor>`
+					c.Count("elements/entities_descriptor_wrapper")
+				}
+				p2, _ := guard(func() { ed2, err2 = samlsp.ParseMetadata([]byte(doc2)) })
 				ok := !p1 && err == nil
 				ok2 := !p2 && err2 == nil
 				locOut := ""
